@@ -9,6 +9,39 @@ BASELINE = ("cd /repo && env -u GSCRIB_VERIF /venv/bin/python -m pytest -ra -q -
 
 # id -> (technique, level text, level note, design ref)
 CLAIMED = {
+    "C04": (
+        "Lean 4 theorems over a hand-written model of Transform/CoordinateTransformer/GCodeCore's move path for an ARBITRARY "
+        "4x4 current matrix (algebra over Q by grind, induction over op lists) + differential correspondence with scipy's "
+        "rotation blocks passed as exact data",
+        "Proof: C04_abs_word, C04_rel_word, C04_mentions, C04_invariant, C04_invariant_run: for every affine map reachable or "
+        "not, every partial-axis move/rapid in both modes, the emitted words are the image of the target (absolute) or the "
+        "linear image of the displacement (relative), every axis that has to change is mentioned, and machine = A.tracked is "
+        "preserved along any op list that leaves A unchanged.",
+        "Trusted: Lean kernel, model tied by correspondence, harness; exact arithmetic over Q: float rounding and LAPACK's inverse "
+        "are sampled with the tie-guarded tolerance, not proved; scipy Rotation enters as data.",
+        "DESIGN.md section 7 / C04",
+    ),
+    "C13": (
+        "Lean 4 refinement proof: the transformer (4x4 matrices, pivot matrices, stack, name dict, context-manager frames) "
+        "refines a tiny spec of immutable affine values for every op list incl. nested with-blocks and exits by exception "
+        "+ differential correspondence against an independent numpy stack machine",
+        "Proof: C13_refines_spec(_init), C13_affine_inv(_step), C13_reverse, C13_reverse_reachable, C13_pivot_fixed(_calls), "
+        "C13_named_immutable, C13_context_restores, C13_save_restore.",
+        "Trusted: as C04. Rotation blocks are data (theorems hold for every invertible block).",
+        "DESIGN.md section 7 / C13",
+    ),
+    "C20": (
+        "Lean 4 theorems over the Builder model with data-described hooks (hook calls as an output of step, E-axis machine) "
+        "+ differential correspondence with wrappers around the real hooks incl. the bundled extrusion_hook",
+        "Proof: C20_hook_calls_move (each registered hook called once per linear move with origin = tracked position and "
+        "target = position reached, both modes), C20_no_calls, C20_params (emitted and remembered = hook output), "
+        "C20_extrusion_word, C20_extrusion_amount_partial (filament = k x XY length per move / as increase of the running total "
+        "under ESync), C20_reset_resyncs; the running-total clause fails after an M83->M82 switch: recorded finding with a "
+        "Lean witness replayed every run.",
+        "Trusted: as C02; hypot(dx,dy) is an uninterpreted parameter of the model (the oracle checks it against dx, dy); "
+        "arbitrary user hooks are not modelled.",
+        "DESIGN.md section 7 / C20",
+    ),
     "C14": (
         "Lean 4 theorems over a hand-written model of the writer list and FileWriter sessions (induction over every history of "
         "add/remove/write/flush/teardown/disconnect, explicit UTF-8 encoder/decoder) + differential correspondence on real "
